@@ -1455,6 +1455,9 @@ impl<'a> World<'a> {
         uv::trace::reset();
         uv::rand::reset(key(&[self.plan.seed, self.plan.run, 0x6e6f6e6365]), self.eps.len().max(1));
         uv::time::set_now_ns(0);
+        // window knob (hook H10): real Client/Server pairs with windows smaller than 4096
+        let (fw, pw) = (self.plan.param("b_frame_window", 0.0) as u32, self.plan.param("b_packet_window", 0.0) as u32);
+        uv::knobs::set_windows(if fw > 0 && pw > 0 { Some((fw, pw)) } else { None });
         let end_ns = self.plan.end_us * 1000;
         let end_when_quiescent = self.plan.param("end_when_quiescent", 0.0) != 0.0;
 
@@ -1521,6 +1524,7 @@ impl<'a> World<'a> {
             uv::net::sim::reset();
             uv::rand::reset(0, 1);
         }
+        uv::knobs::set_windows(None);
         RunOutcome {
             digest: self.digest.finish(),
             violation: self.violation,
